@@ -49,7 +49,7 @@ func (h *NtfnsHandler) VerifReceiveTx(tx *wire.MsgTx) (bool, error) {
 	if err != nil {
 		return false, err
 	}
-	rel, _, err := h.filterTx(tx, nil, nil, readyWallets)
+	rel, _, err := h.filterTx(nil, tx, nil, nil, readyWallets)
 	return rel, err
 }
 
